@@ -159,7 +159,7 @@ def check_widen(ctx, case):
 
 
 def run(ctx):
-    for k in range(ctx.n(60, 500)):
+    for k in range(ctx.n(90, 1000)):
         case = gen(ctx)
         check_case(ctx, case)
         if k % 3 == 0:
